@@ -121,7 +121,7 @@ def gen_project(rng, idx, W, min_occ):
                     if noisy and rng.random() < 0.3:
                         fb.add("")
                     if noisy and rng.random() < 0.3:
-                        fb.add("%s%s note %d" % (ind2, "#" if py else "//", fresh()))
+                        fb.add(("%s/* note %d */" if (not py and rng.random() < 0.4) else "%s" + ("#" if py else "//") + " note %d") % (ind2, fresh()))
                     text = ind2 + stmt(fb.lang, sid)
                     if noisy and rng.random() < 0.3:
                         text += "  %s trailing %d" % ("#" if py else "//", fresh())
@@ -176,15 +176,39 @@ def gen_project(rng, idx, W, min_occ):
     return files, runs
 
 
+def strip_comment(raw, cm):
+    """Harness-side comment removal: the language's own line-comment marker outside string literals; closed /* */ comments in brace languages."""
+    out, q, i = [], None, 0
+    while i < len(raw):
+        ch = raw[i]
+        if q:
+            out.append(ch)
+            if ch == "\\" and i + 1 < len(raw):
+                out.append(raw[i + 1])
+                i += 1
+            elif ch == q:
+                q = None
+        elif ch in "\"'`":
+            q = ch
+            out.append(ch)
+        elif raw.startswith(cm, i):
+            break
+        elif cm == "//" and raw.startswith("/*", i) and raw.find("*/", i + 2) >= 0:
+            i = raw.find("*/", i + 2) + 1
+            out.append(" ")
+        else:
+            out.append(ch)
+        i += 1
+    return "".join(out)
+
+
 def code_lines(text_lines, start, lang, n=None, end=None):
     """Normalised code lines from 1-based `start`: first n code lines, or all code lines up to `end`."""
     out = []
     i = start
     cm = "#" if lang == "py" else "//"
     while i <= len(text_lines) and (n is None or len(out) < n) and (end is None or i <= end):
-        raw = text_lines[i - 1]
-        if cm in raw:
-            raw = raw[:raw.index(cm)]
+        raw = strip_comment(text_lines[i - 1], cm)
         norm = " ".join(raw.split())
         if norm:
             out.append(norm)
